@@ -316,5 +316,11 @@ theorem ni_stepOp {b : Bag} (h : NI b) (hr : Rect b) (op : Op) (hne : ¬ NameEdi
       · rename_i r hrr
         obtain ⟨k, i, n, _⟩ := cleanSitesBag_fields (isCleanFn_maj _ ends ig iN) hrr
         exact h.keys k i n
+  | replaceRe ok seqs =>
+    simp only [Model.stepOp]
+    split
+    · exact h
+    · obtain ⟨k, i, n, _⟩ := replaceRegexBag_fields seqs b
+      exact h.keys k i n
 
 end Gv.Proofs.BagAbs
